@@ -600,3 +600,49 @@ pub proof fn lemma_view_is_sorted_permutation<T>(buf: Seq<(usize, T)>, s: Seq<T>
         assert(le(ord, buf[i].1, buf[j].1));
     }
 }
+// a queue of diffs seen from its front: the first is applied first
+pub proof fn lemma_apply_all_front<T>(ds: Seq<VectorDiff<T>>, s: Seq<T>)
+    requires ds.len() > 0
+    ensures apply_all(ds, s) == apply_all(ds.drop_first(), apply(ds[0], s)),
+        all_applicable(ds, s) == (applicable(ds[0], s) && all_applicable(ds.drop_first(), apply(ds[0], s)))
+    decreases ds.len()
+{
+    let e = Seq::<VectorDiff<T>>::empty();
+    let s1 = apply(ds[0], s);
+    if ds.len() == 1 {
+        assert(ds.drop_last() =~= e);
+        assert(ds.drop_first() =~= e);
+        assert(ds.last() == ds[0]);
+        assert(apply_all(e, s) == s && all_applicable(e, s));
+        assert(apply_all(e, s1) == s1 && all_applicable(e, s1));
+        assert(apply_all(ds, s) == apply(ds.last(), apply_all(ds.drop_last(), s)));
+        assert(all_applicable(ds, s) == (all_applicable(ds.drop_last(), s) && applicable(ds.last(), apply_all(ds.drop_last(), s))));
+    } else {
+        let f = ds.drop_first();
+        lemma_apply_all_front(ds.drop_last(), s);
+        assert(f.drop_last() =~= ds.drop_last().drop_first());
+        assert(ds.drop_last()[0] == ds[0]);
+        assert(f.last() == ds.last());
+        assert(apply_all(ds, s) == apply(ds.last(), apply_all(ds.drop_last(), s)));
+        assert(apply_all(f, s1) == apply(f.last(), apply_all(f.drop_last(), s1)));
+        assert(all_applicable(ds, s) == (all_applicable(ds.drop_last(), s) && applicable(ds.last(), apply_all(ds.drop_last(), s))));
+        assert(all_applicable(f, s1) == (all_applicable(f.drop_last(), s1) && applicable(f.last(), apply_all(f.drop_last(), s1))));
+    }
+}
+pub open spec fn queue<T>(b: SmallVec<[VectorDiff<T>; 2]>) -> Seq<VectorDiff<T>> { b@.reverse() }
+// a consumer that has rebuilt `v` and still gets the queued diffs `q` ends up with the buffer's view
+pub open spec fn pending_ok<T>(q: Seq<VectorDiff<T>>, v: Seq<T>, buf: Seq<(usize, T)>) -> bool {
+    all_applicable(q, v) && apply_all(q, v) == vals(buf)
+}
+pub proof fn lemma_pending_front<T>(q: Seq<VectorDiff<T>>, d: VectorDiff<T>, rest: Seq<VectorDiff<T>>, v: Seq<T>, buf: Seq<(usize, T)>)
+    requires pending_ok(q, v, buf), q =~= seq![d] + rest
+    ensures applicable(d, v), pending_ok(rest, apply(d, v), buf)
+{
+    lemma_apply_all_front(q, v);
+    assert(q.drop_first() =~= rest);
+}
+pub proof fn lemma_pending_empty<T>(v: Seq<T>, buf: Seq<(usize, T)>)
+    ensures pending_ok(Seq::<VectorDiff<T>>::empty(), v, buf) == (v == vals(buf))
+{
+    assert(apply_all(Seq::<VectorDiff<T>>::empty(), v) == v);
+}
